@@ -8,13 +8,13 @@ the archive extractor gets the obligation that its path argument is INSIDE the
 private temporary directory; ZIP/TAR paths have no file-system call at all
 (policy, from the AST); skip rules dominate every member dispatch.
 """
-import ast
+import os
 
 import z3
 
 from pyvc import loader, ops
 from pyvc.contracts import FnContract, Raises
-from pyvc.flow import MustFacts, dotted, ground_obligation
+from pyvc.flow import ground_obligation
 from pyvc.symex import Executor
 from pyvc.values import NONE, VBool, VExt, VFunc, VSeq, VStr, VTuple, VUnk, ext_sort, fresh_name
 from pyvc.verify import p_opt, p_str, p_unk
@@ -61,14 +61,17 @@ def fs_call(kind):
     def m(ex, st, args, kwargs, node):
         p = args[0] if args else None
         temp = st.ghost.get("temp_dir")
-        label = f"{kind}@{ex.call_ordinal(node, kind.split('.')[-1])}"
+        label = "every-path-argument-is-inside-the-private-temp-dir"     # one id for all sites: call ordinals / primitive names may change
         if temp is None or not isinstance(p, VStr):
             ex.add_vc("fs-confined", label, st.pc, z3.BoolVal(False), note=f"{ex.loc(node)} {kind}: no private temp dir in scope / path not a string", loc=ex.loc(node))
         else:
             ex.add_vc("fs-confined", label, st.pc, inside(temp, p.t), note=f"{ex.loc(node)} {kind}", loc=ex.loc(node))
         ex.exc_any(st.fork(), f"{ex.loc(node)} {kind}")
-        if kind == "os.path.exists":
+        if kind in ("os.path.exists", "os.path.lexists", "os.path.isfile", "os.path.isdir"):
             return [(st, VBool(z3.Bool(fresh_name("exists"))))]
+        if kind == "os.path.getsize":
+            from pyvc.values import VInt
+            return [(st, VInt(z3.Int(fresh_name("getsize"))))]
         if kind == "open":
             return [(st, VExt("File"))]
         return [(st, NONE)]
@@ -80,9 +83,26 @@ def with_file(ex, st, cm, phase):
         return [(st, cm)]
 
 
+OVER = z3.Bool("pyvc!overapprox")     # assumed on every path that went through an un-modelled call (EXC-ANY: the result is arbitrary):
+                                      # a solver model on such a path is not a counterexample of the real code -> `unknown`, native replay decides
+
+
 class FsExecutor(Executor):
     def b_open(self, st, args, kwargs, node):
         return fs_call("open")(self, st, args, kwargs, node)
+
+    def havoc_call(self, st, what, args, node):
+        st.assume(OVER)          # before the fork: "may raise any Exception" is part of the over-approximation
+        return super().havoc_call(st, what, args, node)
+
+
+def _over(pc, goal):
+    return any(z3.is_const(x) and z3.eq(x, OVER) for x in pc)
+
+
+from pyvc import solve as _solve  # noqa: E402
+if not any(getattr(f, "__name__", "") == "_over" and f.__module__ == __name__ for f in _solve.SAT_UNTRUSTED):
+    _solve.SAT_UNTRUSTED.append(_over)
 
 
 def install(reg):
@@ -91,7 +111,8 @@ def install(reg):
     reg.ext_models["os.path.splitdrive"] = m_splitdrive
     reg.ext_models["os.path.isabs"] = m_isabs
     reg.ext_models[("const", "os.sep")] = VStr("/")
-    reg.ext_models["os.path.exists"] = fs_call("os.path.exists")
+    for k in ("os.path.exists", "os.path.lexists", "os.path.isfile", "os.path.isdir", "os.path.getsize", "os.unlink", "os.rmdir"):
+        reg.ext_models[k] = fs_call(k)
     reg.ext_models["os.makedirs"] = fs_call("os.makedirs")
     reg.ext_models["os.remove"] = fs_call("os.remove")
     reg.ext_models["os.mkdir"] = fs_call("os.mkdir")
@@ -103,18 +124,34 @@ SUP = z3.Function("is_supported_file_cached", S, z3.BoolSort())
 LOWER = z3.Function("str_lower", S, S)
 
 
+def real_params(rel, qual, default):
+    """parameter names of the real function, by position (a renamed parameter keeps its role); `default` when the arity differs"""
+    try:
+        f = loader.module(rel).functions.get(qual)
+        names = [a.arg for a in f.args.posonlyargs + f.args.args] if f is not None else []
+        if len(names) == len(default) and not f.args.kwonlyargs and not f.args.vararg and not f.args.kwarg:
+            return names
+    except Exception:  # noqa
+        pass
+    return list(default)
+
+
 def contracts(reg):
     install(reg)
     out = []
+    sj_base, sj_rel = real_params(SEVEN, "_safe_join", ("base_dir", "relative_path"))
+    p7_files, p7_temp, p7_arch = real_params(ARCH, "_process_7z_files_sequential", ("files_to_process", "temp_dir", "archive_path"))
+    sk_file, sk_base = real_params(ARCH, "_should_skip_file", ("filename", "basename"))
+    (sup_name,) = real_params(ARCH, "_is_supported_file_cached", ("filename",))
 
     def sj_raise(c):
-        rel, base = c.args["relative_path"].t, c.args["base_dir"].t
+        rel = c.args[sj_rel].t
         return z3.Length(rel) > 0
 
     out.append(FnContract(
         target=f"{SEVEN}::_safe_join",
-        params=[("base_dir", p_str()), ("relative_path", p_str())],
-        ensures=[("result-inside-base", lambda c: inside(c.args["base_dir"].t, c.result.t))],
+        params=[(sj_base, p_str()), (sj_rel, p_str())],
+        ensures=[("result-inside-base", lambda c: inside(c.args[sj_base].t, c.result.t))],
         raises=[Raises("Bad7zFile", when=sj_raise)],
         result_maker=lambda ex, st, ctx: VStr(z3.String(fresh_name("safe_path"))),
         note="returns only paths inside base_dir; absolute / drive / dot-dot escapes raise Bad7zFile",
@@ -131,18 +168,18 @@ def contracts(reg):
         return Maker(mk, desc="list of (FileInfo, filename, basename) with arbitrary member names")
 
     def bind_temp(c):
-        c.st.ghost["temp_dir"] = c.args["temp_dir"].t
+        c.st.ghost["temp_dir"] = c.args[p7_temp].t
         return z3.BoolVal(True)
 
     out.append(FnContract(
         target=f"{ARCH}::_process_7z_files_sequential",
-        params=[("files_to_process", files_maker()), ("temp_dir", p_str()), ("archive_path", p_opt(p_str()))],
+        params=[(p7_files, files_maker()), (p7_temp, p_str()), (p7_arch, p_opt(p_str()))],
         requires=bind_temp, generator=True, raises=[],
         note="member names are arbitrary strings (absolute, dot-dot, names of host files)",
     ))
     out.append(FnContract(
         target=f"{ARCH}::_process_archive_entry", assumed=True, generator=True,
-        params=[("filename", p_unk()), ("file_data", p_unk()), ("archive_path", p_unk()), ("basename", p_unk())],
+        params=[(n, p_unk()) for n in real_params(ARCH, "_process_archive_entry", ("filename", "file_data", "archive_path", "basename"))],
         raises=[], note="verified by the C01 pack (raises nothing); works on in-memory bytes only"))
 
     # skip rule: _should_skip_file(filename, basename)  <=>  hidden | __MACOSX/ | unsupported | nested archive
@@ -150,18 +187,18 @@ def contracts(reg):
     nested = sorted(arch.literal("NESTED_ARCHIVE_EXTENSIONS"))
 
     def skip_spec(c):
-        f, b = c.args["filename"].t, c.args["basename"].t
+        f, b = c.args[sk_file].t, c.args[sk_base].t
         return VBool(z3.Or(z3.PrefixOf(z3.StringVal("."), b), z3.PrefixOf(z3.StringVal("__MACOSX/"), f),
                            z3.Not(SUP(b)), z3.Or([z3.SuffixOf(z3.StringVal(e), LOWER(b)) for e in nested])))
 
     out.append(FnContract(
-        target=f"{ARCH}::_is_supported_file_cached", assumed=True, params=[("filename", p_str())],
-        returns=lambda c: VBool(SUP(c.args["filename"].t)),
+        target=f"{ARCH}::_is_supported_file_cached", assumed=True, params=[(sup_name, p_str())],
+        returns=lambda c: VBool(SUP(c.args[sup_name].t)),
         note="lru_cache wrapper of router.is_supported_file (verified by C07); memo soundness is C15's"))
     reg.ext_models["str.lower"] = lambda ex, st, args, kwargs, node: [(st, VStr(LOWER(args[0].t)))]
     out.append(FnContract(
         target=f"{ARCH}::_should_skip_file",
-        params=[("filename", p_str()), ("basename", p_str())],
+        params=[(sk_file, p_str()), (sk_base, p_str())],
         returns=skip_spec,
         note="hidden members, macOS resource forks, unsupported types and nested archives are skipped",
     ))
@@ -169,191 +206,107 @@ def contracts(reg):
 
 
 # ----------------------------------------------------------------- policy --
-FS_NAMES = ("open", "os.makedirs", "os.mkdir", "os.remove", "os.unlink", "os.rename", "os.replace", "os.rmdir", "os.symlink", "os.link",
-            "os.path.exists", "os.path.isfile", "os.path.isdir", "os.listdir", "os.scandir", "os.walk", "os.stat", "os.chmod", "os.utime")
-FS_PREFIXES = ("shutil.", "tempfile.", "pathlib.")
-# (module, function qualname) -> allowed file-system calls
-ALLOWED = {
-    (ARCH, "_extract_from_7z_optimized"): {"tempfile.TemporaryDirectory"},
-    (ARCH, "_process_7z_files_sequential"): {"os.path.exists", "open"},
-    (SEVEN, "SevenZipReader.extractall"): {"os.makedirs", "open"},       # confined by policy#writes-only-to-_safe_join-results
-    (SEVEN, "SevenZipReader._extract_files_from_folder"): {"open"},
-    (SEVEN, "_mkdirs"): {"os.makedirs"},
-}
-
-
-def canonical(mod, call):
-    d = dotted(call.func)
-    if not d:
-        return ""
-    head, _, rest = d.partition(".")
-    origin = mod.imports.get(head)
-    if origin:
-        return origin + ("." + rest if rest else "")
-    return d
-
-
-def owner_fn(mod, node):
-    best = None
-    for q, f in mod.functions.items():
-        if f.lineno <= node.lineno <= f.end_lineno and any(n is node for n in ast.walk(f)):
-            if best is None or f.lineno >= mod.functions[best].lineno:
-                best = q
-    return best
+# Round 3: every obligation below follows the data flow of the real AST (contracts/C09_flow.py) instead of matching function names,
+# local names or statement shapes.  None of them is a refutation when it fails -- the analyses under-approximate -- so a failure is
+# `unknown` (definite=False) and the native replayer (hostile archives under a file-system observer) decides.
+def _obl(oid, ok, detail, loc, first=()):
+    o = ground_obligation(oid, ok, detail, loc, definite=False)
+    o["replay_hint"] = {"first": list(first)}
+    return o
 
 
 def policy(repo, tier):
+    from contracts import C09_flow, archive_guards
     obls, fns = [], []
     mods = {ARCH: loader.module(ARCH, repo), SEVEN: loader.module(SEVEN, repo)}
-    # P1: file-system calls only at the allow-listed sites
-    bad, seen = [], 0
-    for rel, m in mods.items():
-        for call in (n for n in ast.walk(m.tree) if isinstance(n, ast.Call)):
-            c = canonical(m, call)
-            is_fs = c in FS_NAMES or c.startswith(FS_PREFIXES)
-            # archive objects: extract()/extractall() of zipfile/tarfile write to disk
-            if isinstance(call.func, ast.Attribute) and call.func.attr in ("extract", "extractall") and rel == ARCH:
-                recv = ast.unparse(call.func.value)
-                if recv != "szf":
-                    is_fs, c = True, f"{recv}.{call.func.attr}"
-            if not is_fs:
-                continue
-            seen += 1
-            q = owner_fn(m, call)
-            if c not in ALLOWED.get((rel, q), set()):
-                bad.append(f"{rel}:{call.lineno} {c} in {q}")
-    obls.append(ground_obligation("C09/package/policy#file-system-calls-only-at-allow-listed-sites", not bad and seen >= 4,
-                                  "; ".join(bad) or f"{seen} file-system call sites, all allow-listed", "archive_extractor.py, sevenzip.py"))
-    arch = mods[ARCH]
-    # P2: ZIP and TAR member loops have no file-system effect (in-memory reads of regular members only)
-    for q in ("_extract_from_zip_optimized", "_extract_from_tar_optimized"):
-        f = arch.functions.get(q)
-        if f is None:
-            obls.append(ground_obligation(f"C09/archive_extractor.py::{q}/policy#no-file-system-effect", False, "function missing", definite=False))
+    arch, sv = mods[ARCH], mods[SEVEN]
+    try:
+        text = []
+        for other in loader.all_package_files(repo):
+            try:
+                text.append(open(os.path.join(repo or loader.REPO, other), encoding="utf-8").read())
+            except OSError:
+                pass
+        conf = C09_flow.Confined(mods, package_text="\n".join(text))
+        sites = conf.fs_sites()
+        blocks = conf.tempdir_blocks(ARCH)
+        conf_err = ""
+    except Exception as e:  # noqa  a shape the analysis does not foresee is "not recognised", never an engine error
+        conf, sites, blocks, conf_err = None, [], [], f"confinement analysis does not cover this shape ({type(e).__name__}: {e})"
+    try:
+        gf = C09_flow.guard_flow(repo, ARCH)
+        gf_err = ""
+    except Exception as e:  # noqa
+        gf, gf_err = None, f"guard analysis does not cover this shape ({type(e).__name__}: {e})"
+
+    # P1: every file-system primitive used by the two modules is of a kind whose effect is determined by its path argument(s)
+    odd = [d for (_r, _q, _c, _n, v, d) in sites if v == "unrecognised"]
+    obls.append(_obl("C09/package/policy#file-system-primitives-are-recognised", not conf_err and not odd and len(sites) >= 4,
+                     conf_err or "; ".join(odd) or f"{len(sites)} file-system call sites, all path-determined primitives", "archive_extractor.py, sevenzip.py",
+                     first=("7z unix symlink", "tar links")))
+    # P6: every path that reaches such a primitive is the private base, a _safe_join(base, ...) result, its dirname, or a parameter
+    #     bound to such a value at every call site (fixpoint over the helper functions of both modules)
+    for rel, short, want in ((SEVEN, "sevenzip.py", ("open", "os.makedirs")), (ARCH, "archive_extractor.py", ("tempfile.TemporaryDirectory",))):
+        mine = [s_ for s_ in sites if s_[0] == rel]
+        bad = [d for (_r, _q, _c, _n, v, d) in mine if v == "unconfined"]
+        seen = {n for (_r, _q, _c, n, _v, _d) in mine}
+        missing = [w for w in want if w not in seen and not (w == "tempfile.TemporaryDirectory" and "tempfile.mkdtemp" in seen)]
+        detail = conf_err or "; ".join(bad) or ("; ".join(f"no {w} call found (vacuity)" for w in missing)) or f"{len(mine)} call sites, every path confined"
+        obls.append(_obl(f"C09/{short}/policy#paths-reaching-the-file-system-are-confined", not conf_err and not bad and not missing, detail, rel,
+                         first=("7z member with a stream", "7z zero-length", "7z listed member", "7z directory")))
+        for q in sorted({q for (_r, q, _c, _n, _v, _d) in mine if q in mods[rel].functions}):
+            fns.append(dict(mods[rel].fn_info(q), obligations=1))
+    # P5: the private temp dir is owned by a `with tempfile.TemporaryDirectory()` block that encloses every use of its name
+    life = [d for (_r, _q, _c, _n, v, d) in sites if v == "tempdir-lifetime"]
+    why = list(life)
+    for (q, w, name, n_in, n_all, n_st) in blocks:
+        if name is None:
+            why.append(f"{q} line {w.lineno}: the directory is not bound to a name")
+        elif n_in != n_all or n_st != 1:
+            why.append(f"{q} line {w.lineno}: {name} is used outside the with block ({n_in}/{n_all} uses inside, {n_st - 1} other bindings)")
+        elif n_in < 1:
+            why.append(f"{q} line {w.lineno}: {name} is never used")
+    if not blocks and not life:
+        why.append("no temporary directory is created (vacuity)")
+    obls.append(_obl("C09/archive_extractor.py::_extract_from_7z_optimized/typestate#temp-dir-is-a-with-block-enclosing-all-uses",
+                     not conf_err and not why, conf_err or "; ".join(why) or f"{len(blocks)} with-block(s), every use of the directory name inside", ARCH,
+                     first=("histories",)))
+    # P2: ZIP and TAR processing has no file-system effect (in-memory reads only), helpers included
+    entries = {"zip": "_extract_from_zip_optimized", "tar": "_extract_from_tar_optimized", "7z": "_extract_from_7z_optimized"}
+    for kind in ("zip", "tar"):
+        q = entries[kind]
+        oid = f"C09/archive_extractor.py::{q}/policy#no-file-system-effect"
+        if q not in arch.functions or gf is None or conf is None:
+            obls.append(_obl(oid, False, gf_err or conf_err or "function missing", ARCH))
             continue
-        eff = [f"{n.lineno}:{canonical(arch, n)}" for n in ast.walk(f) if isinstance(n, ast.Call) and
-               (canonical(arch, n) in FS_NAMES or canonical(arch, n).startswith(FS_PREFIXES)
-                or (isinstance(n.func, ast.Attribute) and n.func.attr in ("extract", "extractall", "makefile")))]
-        obls.append(ground_obligation(f"C09/archive_extractor.py::{q}/policy#no-file-system-effect", not eff, "; ".join(eff), ARCH))
+        reach = gf.reachable(q)
+        eff = [d for (r, fq, _c, _n, _v, d) in sites if r == ARCH and fq in reach]
+        obls.append(_obl(oid, not eff, "; ".join(eff) or f"{len(reach)} function(s) reachable in the module, none touches the file system", ARCH,
+                         first=("zip", "tar")))
         fns.append(dict(arch.fn_info(q), obligations=1))
     # oversize members never produce results: the size guard dominates every member read (shared with C12)
-    from contracts import archive_guards
     for o, info in archive_guards.zip_and_tar("C09", repo, label="oversize-members-are-never-read"):
         obls.append(o)
-    # P3: tar: only regular members are read (isreg() dominates extractfile)
-    f = arch.functions.get("_extract_from_tar_optimized")
-    if f is not None:
-        def gen_cond(test, branch):
-            t = ast.unparse(test)
-            if t == "not member.isreg()" and branch is False:
-                return ["isreg(member)"]
-            if t == "member.isreg()" and branch is True:
-                return ["isreg(member)"]
-            return []
-        mf = MustFacts(gen_cond=gen_cond,
-                       need=lambda n: [("isreg(member)", f"line {n.lineno}")] if isinstance(n, ast.Call) and isinstance(n.func, ast.Attribute)
-                       and n.func.attr == "extractfile" else [], kill_names=lambda fact: ["member"])
-        # the `continue` in the true branch means the fact holds after the if: handled by join (None & facts)
-        res = mf.run(f)
-        obls.append(ground_obligation("C09/archive_extractor.py::_extract_from_tar_optimized/typestate#only-regular-members-are-read",
-                                      bool(res) and all(r.ok for r in res), "; ".join(r.desc for r in res if not r.ok), ARCH))
-    # P4: skip rules dominate every member dispatch
-    for q, listvar in (("_extract_from_zip_optimized", "files_to_process"), ("_extract_from_tar_optimized", None),
-                       ("_extract_from_7z_optimized", "files_to_process")):
-        f = arch.functions.get(q)
-        if f is None:
-            continue
-        def gen_cond(test, branch):
-            t = ast.unparse(test)
-            if t == "_should_skip_file(filename, basename)" and branch is False:
-                return ["not-skipped"]
-            return []
-        def need(n):
-            if isinstance(n, ast.Call):
-                d = dotted(n.func)
-                if d == "_process_archive_entry" and listvar is None:
-                    return [("not-skipped", f"{q} line {n.lineno} dispatch")]
-                if listvar and d == f"{listvar}.append":
-                    return [("not-skipped", f"{q} line {n.lineno} append")]
-            return []
-        mf = MustFacts(gen_cond=gen_cond, need=need, kill_names=lambda fact: ["filename", "basename"])
-        res = mf.run(f)
-        ok = bool(res) and all(r.ok for r in res)
-        why = [r.desc for r in res if not r.ok]
-        if listvar:
-            # dispatches must iterate over exactly that list
-            disp = [n for n in ast.walk(f) if isinstance(n, ast.Call) and dotted(n.func) in ("_process_archive_entry", "_process_7z_files_sequential")]
-            for d_ in disp:
-                loops = [l for l in ast.walk(f) if isinstance(l, ast.For) and any(x is d_ for x in ast.walk(l))]
-                if dotted(d_.func) == "_process_7z_files_sequential":
-                    if not (d_.args and ast.unparse(d_.args[0]) == listvar):
-                        ok = False
-                        why.append(f"line {d_.lineno}: sequential processing not over {listvar}")
-                elif not any(ast.unparse(l.iter) == listvar for l in loops):
-                    ok = False
-                    why.append(f"line {d_.lineno}: dispatch outside a loop over {listvar}")
-            stores = [n for n in ast.walk(f) if isinstance(n, ast.Name) and n.id == listvar and isinstance(n.ctx, ast.Store)]
-            if len(stores) != 1:
-                ok = False
-                why.append(f"{listvar} assigned {len(stores)} times")
-        obls.append(ground_obligation(f"C09/archive_extractor.py::{q}/typestate#skip-rule-dominates-member-dispatch", ok, "; ".join(why), ARCH))
-        fns.append(dict(arch.fn_info(q), obligations=1))
-    # P5: the private temp dir is a `with tempfile.TemporaryDirectory()` that encloses every use of its name
-    f = arch.functions.get("_extract_from_7z_optimized")
-    ok, why = False, "function missing"
-    if f is not None:
-        tds = [n for n in ast.walk(f) if isinstance(n, ast.Call) and canonical(arch, n) == "tempfile.TemporaryDirectory"]
-        withs = [w for w in ast.walk(f) if isinstance(w, ast.With) and any(it.context_expr in tds for it in w.items)]
-        ok = len(tds) == 1 and len(withs) == 1
-        why = f"{len(tds)} TemporaryDirectory calls, {len(withs)} as with-item"
-        if ok:
-            w = withs[0]
-            name = ast.unparse(w.items[0].optional_vars) if w.items[0].optional_vars is not None else None
-            uses = [n for n in ast.walk(f) if isinstance(n, ast.Name) and n.id == name and isinstance(n.ctx, ast.Load)]
-            inside_uses = [n for n in ast.walk(w) if isinstance(n, ast.Name) and n.id == name and isinstance(n.ctx, ast.Load)]
-            ok = name is not None and len(uses) == len(inside_uses) and len(uses) >= 2
-            why = f"temp dir name {name}: {len(inside_uses)}/{len(uses)} uses inside the with block"
-    obls.append(ground_obligation("C09/archive_extractor.py::_extract_from_7z_optimized/typestate#temp-dir-is-a-with-block-enclosing-all-uses", ok, why, ARCH))
-    # P6: sevenzip writes only to paths returned by _safe_join (or their dirname), under the directory it was given
-    sv = mods[SEVEN]
-    # every path handed to open / _mkdirs / os.makedirs in the 7z reader is the extraction base itself or a _safe_join(base, ...) result
-    # (or its dirname); the base is the private temporary directory by the with-block obligation above
-    for q, base_param, min_sinks in (("SevenZipReader._extract_files_from_folder", "base_path", 3), ("SevenZipReader.extractall", "path", 1)):
-        f = sv.functions.get(q)
-        ok, why = False, ["function missing"]
-        if f is not None:
-            why = []
-            safe_vars = {base_param}
-            for n in ast.walk(f):
-                if isinstance(n, ast.Assign) and isinstance(n.value, ast.Call) and len(n.targets) == 1 and isinstance(n.targets[0], ast.Name):
-                    d = dotted(n.value.func)
-                    if d == "_safe_join" and n.value.args and ast.unparse(n.value.args[0]) == base_param:
-                        safe_vars.add(n.targets[0].id)
-            changed = True
-            while changed:
-                changed = False
-                for n in ast.walk(f):
-                    if isinstance(n, ast.Assign) and isinstance(n.value, ast.Call) and len(n.targets) == 1 and isinstance(n.targets[0], ast.Name):
-                        if canonical(sv, n.value) == "os.path.dirname" and n.value.args and ast.unparse(n.value.args[0]) in safe_vars \
-                                and n.targets[0].id not in safe_vars:
-                            safe_vars.add(n.targets[0].id)
-                            changed = True
-            for n in ast.walk(f):
-                if isinstance(n, (ast.Assign, ast.AugAssign, ast.AnnAssign)):
-                    tg = n.targets if isinstance(n, ast.Assign) else [n.target]
-                    for t in tg:
-                        if isinstance(t, ast.Name) and t.id in safe_vars and not (isinstance(n, ast.Assign) and isinstance(n.value, ast.Call) and (
-                                dotted(n.value.func) == "_safe_join" and n.value.args and ast.unparse(n.value.args[0]) == base_param
-                                or canonical(sv, n.value) == "os.path.dirname")):
-                            why.append(f"line {n.lineno}: {t.id} reassigned from something else")
-            sinks = [n for n in ast.walk(f) if isinstance(n, ast.Call) and dotted(n.func) in ("open", "_mkdirs", "os.makedirs")]
-            for s_ in sinks:
-                a0 = ast.unparse(s_.args[0]) if s_.args else ""
-                if a0 not in safe_vars:
-                    why.append(f"line {s_.lineno}: {dotted(s_.func)}({a0}) not the extraction base or a _safe_join result")
-            ok = not why and len(sinks) >= min_sinks
-            fns.append(dict(sv.fn_info(q), obligations=1))
-        obls.append(ground_obligation(f"C09/sevenzip.py::{q}/policy#writes-only-to-_safe_join-results", ok, "; ".join(why), SEVEN))
+
+    def typestate(oid, root, kind, what, first=()):
+        if gf is None or root not in arch.functions:
+            obls.append(_obl(oid, False, gf_err or "function missing", ARCH, first))
+            return
+        sinks = gf.sinks(root, kind)
+        bad = [f"{d} in {q}: {what}" for (q, _n, _f, ok, d) in sinks if not ok]
+        obls.append(_obl(oid, bool(sinks) and not bad, "; ".join(bad) or (f"{len(sinks)} site(s), each dominated by the guard on the same values" if sinks
+                                                                           else "no such site found from this function (vacuity)"), ARCH, first))
+    # P3: tar: only regular members are read (isreg() of the same member value dominates extractfile)
+    typestate("C09/archive_extractor.py::_extract_from_tar_optimized/typestate#only-regular-members-are-read", entries["tar"], "tar-regular",
+              "the member read here was not established to be a regular file on this path", first=("tar links",))
+    # P4: skip rules dominate every member dispatch (the file name / base name dispatched are the values the skip rule rejected to skip)
+    for kind in ("zip", "tar", "7z"):
+        typestate(f"C09/archive_extractor.py::{entries[kind]}/typestate#skip-rule-dominates-member-dispatch", entries[kind], "dispatch",
+                  "the member dispatched here was not established to pass the skip rule on this path", first=("skip-rules",))
+        if entries[kind] in arch.functions and kind == "7z":
+            fns.append(dict(arch.fn_info(entries[kind]), obligations=1))
+    typestate("C09/archive_extractor.py::_extract_from_7z_optimized/typestate#oversize-members-are-never-dispatched", entries["7z"], "dispatch-size",
+              "no size of the member dispatched here was checked against the limit on this path", first=("oversize",))
     return {"obligations": obls, "functions": fns}
 
 
